@@ -72,7 +72,8 @@ REQUIRED = ['mode:' + m for m in MODES] + [
     'mech:pk', 'regimen', 'unsorted', 'out_sel', 'df', 'array', 'wm', 'stat', 'ns=None',
     'kind:gauss', 'kind:lognorm', 'kind:trunc', 'kind:pooled', 'kind:hetero', 'noncentered', 'cov', 'cov:1d', 'cov:2d',
     'red', 'ns=last', 'ns!=last', 'last:hll', 'last:set', 'last:none', 'inner:pop', 'prior:table', 'prior:cont',
-    'post:poplevel', 'post:param_map', 'post:individual', 'post:default_individual', 'decoded', 'stat:hetero_rows', 'post:param_map_cycle']
+    'post:poplevel', 'post:param_map', 'post:individual', 'post:default_individual', 'decoded', 'stat:hetero_rows', 'post:param_map_cycle',
+    'user_error_model_reused']
 TINY = 1e-9
 ENV_SD = 9.0
 SEEDS = st.integers(0, 2 ** 31 - 2)
@@ -360,6 +361,7 @@ def _spec(draw):
         s['wm'] = not s['stat']
         psi = _draw_psi(draw, mech)
         s['params'] = psi + (_draw_tiny_sig(draw, ems) if s['wm'] else _draw_ordinary_sig(draw, ems, sum(psi)))
+        s['user_em'] = bool(gen.chance(draw, 0.5)) and ref.EM_NPAR[ems[0]] == 2
 
     elif mode == 'poppred':
         noise = (not pk) and gen.chance(draw, 0.12)
@@ -1271,7 +1273,22 @@ class _Built(object):
             self.model = chi.PAMPredictiveModel(posts, list(s['weights']))
             _set_regimen(self.model, s['mech'])
             return
-        pm = _build_pm(s['mech'], s['ems'])
+        self.drop = None
+        if mode == 'pred' and s.get('user_em') and ref.EM_NPAR[s['ems'][0]] == 2:
+            # the user's first error model is a ReducedErrorModel with its last parameter fixed (at the value of the
+            # spec); after the predictive model was built the user re-fixes THEIR object for another purpose
+            m_, outs_ = _build_mech(s['mech'])
+            ems_obj = [ref.em_class(k)() for k in s['ems']]
+            idx = s['mech']['n_par'] + 1
+            last = ems_obj[0].get_parameter_names()[-1]
+            red = chi.ReducedErrorModel(ems_obj[0])
+            red.fix_parameters({last: float(s['params'][idx])})
+            ems_obj[0] = red
+            pm = chi.PredictiveModel(m_, ems_obj, outputs=outs_)
+            red.fix_parameters({last: 40.0 * float(s['params'][idx]) + 1.0})
+            self.drop = idx
+        else:
+            pm = _build_pm(s['mech'], s['ems'])
         base = pm
         if self.pop_inner:
             self.popm = _build_popm(s, pm)
@@ -1327,7 +1344,10 @@ class _Built(object):
         if self.pop_inner and s.get('cov_form', 'none') != 'none':
             kw['covariates'] = self.cov_arg(1 if n is None else n)
         if mode == 'pred':
-            return self.model.sample(np.array(s['params'], dtype=float), times, n_samples=n, seed=seed, return_df=df,
+            params = np.array(s['params'], dtype=float)
+            if self.drop is not None:
+                params = np.delete(params, self.drop)
+            return self.model.sample(params, times, n_samples=n, seed=seed, return_df=df,
                                      include_regimen=s['regimen_flag'])
         if mode == 'poppred':
             return self.model.sample(np.array(s['theta'], dtype=float), times, n_samples=n, seed=seed, return_df=df,
@@ -1654,6 +1674,8 @@ def classify(spec):
         labs.append('stat')
     if s.get('hstat'):
         labs.append('stat:hetero_rows')
+    if s.get('user_em'):
+        labs.append('user_error_model_reused')
     if s['ns'] is None and not s['stat']:
         labs.append('ns=None')
     if 'pop' in s:
